@@ -141,6 +141,12 @@ impl Vm {
             // Update the gas spent.
             gas_spent = next_spent;
 
+            // Any compute programs spawned by the operation share the remaining gas.
+            let remaining_gas_limit = GasLimit {
+                total: gas_limit.total - gas_spent,
+                ..gas_limit
+            };
+
             // Execute the operation.
             let res = step_op(
                 access.clone(),
@@ -149,7 +155,7 @@ impl Vm {
                 state_reads,
                 op_access.clone(),
                 op_gas_cost,
-                gas_limit,
+                remaining_gas_limit,
             );
 
             #[cfg(feature = "tracing")]
@@ -179,6 +185,8 @@ impl Vm {
                 }
                 // TODO: compute gas_spent is not inferrable above
                 Some(ProgramControlFlow::ComputeResult((pc, gas, halt))) => {
+                    // Can't exceed the limit as the compute programs were only given
+                    // the remaining gas.
                     gas_spent += gas;
                     self.pc = pc;
                     self.halt |= halt;
